@@ -14,6 +14,7 @@ the quantifier keeps every backlog within the receiver capacity, so nothing is d
 import Frequenz.Lemmas.Evaluator3
 import Frequenz.Lemmas.EvaluatorFb
 import Frequenz.Extracted.Evaluator
+import Frequenz.Lemmas.EvaluatorTie
 
 open Evaluator
 
@@ -235,3 +236,52 @@ tick 3; tick 3 uses it -/
 example : AdmFromF 2 C06_fb_demo_f C06_fb_demo_has (fun _ => 0) (fun _ => 3) FSt.init C06_fb_demo ∧
     (runF 2 C06_fb_demo_f C06_fb_demo_has C06_fb_demo).out =
       [⟨0, some 65537⟩, ⟨1, some 131072⟩, ⟨2, some 196608⟩, ⟨3, some 263168⟩] := by decide +kernel
+
+/-! ### The model is the source -/
+
+/-- **Tie by proof, all states** (replaces the sampling tie of `apply` / `applyFirst` / `applySteady`).
+`Extracted.EvaluatorPull.apply` is the statement-by-statement translation of the CURRENT source text of
+`FormulaEvaluator.apply` and `_synchronize_metric_timestamps`, regenerated on every run, as a function of the `n`
+receiver queues, the fetchers' current samples and the first-run flag (`Pull.EvSt`; the set of finished tasks is
+iterated in an arbitrary order `s.order`).  For EVERY `n > 0`, formula `f`, model state `σ` and translated state `s`
+with the same queues and flag (`EvaluatorTie.Rel`: `s.order` any permutation of the streams that starts with the
+stream the model's steady-state choice `c` names; streams `≥ n` empty; and, in the first run, every queue gap-free):
+  * the translated call blocks (needs data not yet delivered)  ⇔  `apply n f c σ = none`;
+  * it returns the sample `o` leaving `s'`  ⇒  `apply n f c σ = some σ'` with `σ'.qs = s'.qs`,
+    `σ'.firstRun = s'.firstRun`, `σ'.out = σ.out ++ [o]`;
+  * it never raises (`EvaluatorTie.Agrees`).
+`_partial`: the gap-free hypothesis of the first run cannot be dropped — the code drains the streams of one
+first-timestamp group in lockstep (and raises when it overshoots), the model drains each stream by itself and blocks;
+the two differ on queues with gaps, which no admissible schedule produces (`C06_model_is_source`).  A semantic change
+of the two methods makes this theorem (or the extraction) fail; a behaviour-preserving rewrite does not. -/
+theorem C06_model_is_source_partial (n : Nat) (f : List (Option Rat) → Option Rat) (c : Nat) (σ : St)
+    (s : Pull.EvSt Sample) (hn : 0 < n) (h : EvaluatorTie.Rel n c σ s) :
+    EvaluatorTie.Agrees σ (apply n f c σ) (Extracted.EvaluatorPull.apply f s) :=
+  EvaluatorTie.apply_is_source n f c σ s hn h
+
+/-- **Tie by proof, on the scope of the C06 theorems**: in every state `run n f es` an admissible schedule reaches
+(any `n`, first timestamps, interleaving, first run or steady state) one `eval c` step of the model IS the translated
+`apply` of the current source on the model's queues and first-run flag, for every iteration order of the task set
+that starts with stream `c % n` — no further hypothesis. -/
+theorem C06_model_is_source (n : Nat) (f : List (Option Rat) → Option Rat) (t0 : Nat → Int)
+    (src : Nat → Int → Option Rat) (es : List Ev) (hn : 0 < n) (ha : AdmFrom n f t0 src St.init es) (c : Nat)
+    (s : Pull.EvSt Sample) (hnames : s.names = List.range n) (hperm : s.order.Perm (List.range n))
+    (hhead : s.order.head? = some (c % n)) (hqs : s.qs = (run n f es).qs)
+    (hfirst : s.firstRun = (run n f es).firstRun) :
+    EvaluatorTie.Agrees (run n f es) (apply n f c (run n f es)) (Extracted.EvaluatorPull.apply f s) :=
+  EvaluatorTie.apply_is_source n f c _ s hn
+    (EvaluatorTie.rel_of_run n f t0 src es hn ha c s hnames hperm hhead hqs hfirst)
+
+/-- Non-vacuity: the state of `C06_demo` before its third `eval` (stream 0 holds ticks 0, 1, 2, stream 1 holds ticks 2, 3;
+first run), task set iterated as [1, 0]. -/
+def C06_tie_demo : Pull.EvSt Sample :=
+  ⟨[0, 1], [1, 0], (run 2 C06_demo_f (C06_demo.take 7)).qs, fun _ => none, true⟩
+
+/-- the schedule is admissible, and the translated `apply` drains stream 0 to tick 2, returns the sample stamped 2 and
+clears the first-run flag -/
+example :
+    AdmFrom 2 C06_demo_f (fun i => if i = 0 then 0 else 2) C06_demo_src St.init (C06_demo.take 7) ∧
+    (match Extracted.EvaluatorPull.apply C06_demo_f C06_tie_demo with
+     | .ok o s' => decide (o = ⟨2, some 33⟩) && decide (s'.qs 0 = []) && decide (s'.qs 1 = [⟨3, none⟩]) && !s'.firstRun
+     | _ => false) = true :=
+  ⟨by decide +kernel, by decide +kernel⟩
